@@ -83,7 +83,11 @@ type memEntry struct {
 	cert    *ssh.Certificate
 	comment string
 	maybe   bool
+	// anyComment: after an ambiguous re-add the comment may be the old or the new one
+	anyComment bool
 }
+
+const anyCommentMark = "\x00<any comment>"
 
 type world struct {
 	c      ShimCase
@@ -316,6 +320,9 @@ func sortPairs(p []pair) {
 func (w *world) expectedView(ringAfter []ident, memAfter map[string]*memEntry) (required, optional []pair) {
 	for _, m := range memAfter {
 		p := pair{string(m.cert.Marshal()), m.comment}
+		if m.anyComment {
+			p.comment = anyCommentMark
+		}
 		if m.maybe {
 			optional = append(optional, p)
 		} else {
@@ -351,11 +358,16 @@ func matchView(shown, required, optional []pair, withComments bool) error {
 	}
 	for _, p := range shown {
 		k := key(p)
+		wild := key(pair{p.blob, anyCommentMark})
 		switch {
 		case need[k] > 0:
 			need[k]--
+		case withComments && need[wild] > 0:
+			need[wild]--
 		case may[k] > 0:
 			may[k]--
+		case withComments && may[wild] > 0:
+			may[wild]--
 		default:
 			return fmt.Errorf("unexpected entry %s comment %q", describeBlob(p.blob), p.comment)
 		}
@@ -624,10 +636,9 @@ func (w *world) step(i int, op Op) error {
 				w.mem = map[string]*memEntry{}
 			}
 		case "remove":
+			// the in-memory entry is dropped before the underlying agent is asked
 			if key != nil && !w.locked {
-				if m, ok := w.mem[string(key.Marshal())]; ok {
-					m.maybe = true
-				}
+				delete(w.mem, string(key.Marshal()))
 			}
 		case "lock":
 			w.tr.RefusedLockOps++
@@ -857,7 +868,32 @@ func (w *world) step(i int, op Op) error {
 			return nil
 		}
 		blob := string(key.Marshal())
-		if _, ok := w.mem[blob]; ok {
+		if m, ok := w.mem[blob]; ok && m.maybe {
+			// the entry may have been purged during a disturbed operation: both "still held" (no-op)
+			// and "offered anew" (key test) are legitimate
+			listed := false
+			if c, isCert := key.(*ssh.Certificate); isCert {
+				for _, r := range ringBefore {
+					if r.blob == string(c.Key.Marshal()) {
+						listed = true
+					}
+				}
+			}
+			switch {
+			case opErr != nil && listed:
+				return Errf("%s: certificate over a listed key was refused: %v", where, opErr)
+			case opErr != nil:
+				delete(w.mem, blob) // it was not held any more
+			case listed:
+				m.maybe = false
+				if nc := expectedMemComment(m.cert, op.Comment); nc != m.comment {
+					m.anyComment = true
+				}
+			default:
+				m.maybe = false // accepted without a listed key: it was still held
+			}
+			return nil
+		} else if ok {
 			if opErr != nil {
 				return Errf("%s: adding a held hardware certificate again failed: %v", where, opErr)
 			}
